@@ -281,7 +281,8 @@ Fixpoint run (fx : bool) (sch : schema) (st : tstate) (h : list stmt) : tstate :
      4  INSERT that fails after it has written at least one row
      5  UPDATE ... RETURNING on the one-pass primary-key path
      6  UPDATE SET with a literal assignment to a column that another assignment reads
-     7  UPDATE SET arithmetic over a NULL column value of a selected row *)
+     7  UPDATE SET arithmetic over a NULL column value of a selected row
+    -1  the statement is outside the modelled fragment (not a finding: nothing is claimed) *)
 Definition reads_col (e : expr) (j : nat) : bool :=
   match e with
   | ECol i => Nat.eqb i j
@@ -293,14 +294,15 @@ Definition sets_mix (sets : list (nat * expr)) : bool :=
                     existsb (fun q => set_has_col (snd q) && reads_col (snd q) (fst p)) sets) sets.
 
 Definition stmt_class (sch : schema) (st : tstate) (s : stmt) : Z :=
+  match fst (step false sch st s) with
+  | RUnmod => -1                         (* outside the modelled fragment: nothing is claimed *)
+  | _ =>
   match s with
   | SInsert rows _ =>
-      if forallb (row_fits (s_tys sch)) rows then
-        match ins_loop sch st rows 0 with
-        | (false, _, n) => if 0 <? n then 4 else 0
-        | _ => 0
-        end
-      else 0
+      match ins_loop sch st rows 0 with
+      | (false, _, n) => if 0 <? n then 4 else 0
+      | _ => 0
+      end
   | SDelete w _ => if existsb e_del (select false sch w st) then 1 else 0
   | SUpdate sets w ret =>
       if existsb e_del (select false sch w st) then 2
@@ -311,6 +313,7 @@ Definition stmt_class (sch : schema) (st : tstate) (s : stmt) : Z :=
            | _ => 0
            end
   | STruncate => if existsb e_del (ents st) then 3 else 0
+  end
   end.
 (* the class of a history: the class of its first statement that is in one *)
 Fixpoint hist_class (sch : schema) (st : tstate) (h : list stmt) : Z :=
